@@ -1,4 +1,4 @@
-SERVED = ["C03", "C06", "C07", "C08", "C10", "C13", "C14", "C16", "C17", "C18", "C19", "C20"]
+SERVED = ["C03", "C06", "C07", "C08", "C10", "C15", "C13", "C14", "C16", "C17", "C18", "C19", "C20"]
 HOOKS = {
     "guard": "PSYCHEC_VERIF",
     "enable": "harness/Makefile compiles /repo's sources with -DPSYCHEC_VERIF into /verif/.cache/build-<flavour>/; "
@@ -164,5 +164,16 @@ CHECKS = {
         "note": "Trusted: Coq kernel; the functional frame model abstracts the push/pop/stash protocol (its RESULT is modelled; a protocol error shows as a correspondence failure); "
                 "extraction; harness. Tag and member look-ups are only decoys. Print Assumptions: closed under the global context.",
         "technique": "Coq proof by structural induction over abstract programs (frame model = positional scoping under a named hypothesis, refutations for the rest) + correspondence",
+    },
+    "C15": {
+        "text": "PARTIAL.  Theorems over the model of Compilation's bookkeeping (induction over call histories of any length over any number of trees): C15_history_independent — whatever the "
+                "history, the model recorded for a tree is never anything but the analysis of that tree; C15_idempotent — once computed it is unchanged by any later additions, computations "
+                "or queries.  The analysis itself is a section variable: that analysing one tree reads nothing another tree's analysis wrote is not proved but tested — every tree's parse dump "
+                "and semantic dump (symbols with types, expression types, diagnostics) in histories of parse/add/compute/query over 2..4 trees in one Compilation (all orders of a fixed triple, "
+                "random valid interleavings, repeated computes) must equal the dump obtained alone, and the same requests in three processes with different heap layouts must answer identically.",
+        "design_ref": "DESIGN.md section 6, C15",
+        "note": "Trusted: Coq kernel; C15Model.v; section variable analyse : tree -> result (named in the evidence); the harness' canonical dumps. Cross-process determinism and independence are "
+                "exploration, reported as such. Print Assumptions: closed under the global context.",
+        "technique": "Coq invariant proof over operation histories modulo a section variable + history/process correspondence sweep",
     },
 }
